@@ -2,6 +2,7 @@ use std::ops::{Deref, DerefMut};
 
 use celestia_proto::celestia::core::v1::proof::NmtProof as RawNmtProof;
 use celestia_proto::proof::pb::Proof as RawProof;
+use nmt_rs::simple_merkle::error::RangeProofError;
 use nmt_rs::simple_merkle::proof::Proof as NmtProof;
 use serde::{Deserialize, Serialize};
 use tendermint_proto::Protobuf;
@@ -95,6 +96,80 @@ impl NamespaceProof {
             NmtNamespaceProof::AbsenceProof { ignore_max_ns, .. }
             | NmtNamespaceProof::PresenceProof { ignore_max_ns, .. } => *ignore_max_ns,
         }
+    }
+
+    /// Verify that the provided *raw* leaves are a complete namespace.
+    ///
+    /// Same as the [`nmt_rs`] method of that name, but never panics on a malformed proof.
+    pub fn verify_complete_namespace(
+        &self,
+        root: &NamespacedHash,
+        raw_leaves: &[impl AsRef<[u8]>],
+        namespace: nmt_rs::NamespaceId<NS_SIZE>,
+    ) -> Result<(), RangeProofError> {
+        self.check_well_formed(namespace)?;
+        self.0.verify_complete_namespace(root, raw_leaves, namespace)
+    }
+
+    /// Verify that the provided *raw* leaves are present and form a contiguous subset of
+    /// some namespace.
+    ///
+    /// Same as the [`nmt_rs`] method of that name, but never panics on a malformed proof.
+    pub fn verify_range(
+        &self,
+        root: &NamespacedHash,
+        raw_leaves: &[impl AsRef<[u8]>],
+        leaf_namespace: nmt_rs::NamespaceId<NS_SIZE>,
+    ) -> Result<(), RangeProofError> {
+        self.check_well_formed(leaf_namespace)?;
+        self.0.verify_range(root, raw_leaves, leaf_namespace)
+    }
+
+    /// Structural checks of a proof that came from the wire.
+    ///
+    /// [`nmt_rs`] indexes the siblings by the amount of left siblings the start index
+    /// implies, and panics when asked to hash two nodes that are not ordered by namespace.
+    /// Both are under control of whoever produced the proof, so they are rejected here:
+    /// the in-order sequence `left siblings, proven leaves (or the leaf of an absence proof),
+    /// right siblings` must be sorted by namespace and every node must have `min <= max`.
+    fn check_well_formed(
+        &self,
+        namespace: nmt_rs::NamespaceId<NS_SIZE>,
+    ) -> Result<(), RangeProofError> {
+        let siblings = self.siblings();
+        let num_left_siblings = self.start_idx().count_ones() as usize;
+
+        if siblings.len() < num_left_siblings {
+            return Err(RangeProofError::MissingProofNode);
+        }
+
+        let (left, right) = siblings.split_at(num_left_siblings);
+        let (proven_min, proven_max) = match self.leaf() {
+            Some(leaf) => (leaf.min_namespace(), leaf.max_namespace()),
+            None => (namespace, namespace),
+        };
+
+        let mut prev_max = None;
+        let nodes = left
+            .iter()
+            .map(|node| (node.min_namespace(), node.max_namespace()))
+            .chain([(proven_min, proven_max)])
+            .chain(
+                right
+                    .iter()
+                    .map(|node| (node.min_namespace(), node.max_namespace())),
+            );
+
+        for (min, max) in nodes {
+            if min > max || prev_max.is_some_and(|prev_max| prev_max > min) {
+                return Err(RangeProofError::MalformedProof(
+                    "proof nodes are not ordered by namespace",
+                ));
+            }
+            prev_max = Some(max);
+        }
+
+        Ok(())
     }
 
     /// Returns total amount of leaves in a tree for which proof was constructed.
